@@ -88,7 +88,9 @@ func (c *compiler) compileCall(cc *ssa.CallCommon, in ssa.Instruction, st string
 						if r := recover(); r != nil {
 							switch r.(type) {
 							case pathEnd, *goPanic, specAbort:
-								panic(r)
+								if !e.initPhase {
+									panic(r)
+								}
 							}
 							if e.verbose || os.Getenv("GOSYM_DEBUG") != "" {
 								fmt.Fprintf(os.Stderr, "note: init of %s not completed: %v\n", fn.Pkg.Pkg.Path(), r)
